@@ -124,6 +124,10 @@ def run(c):
                      "validated by spec/EfiVarIoTrace.tla. distinct non-trivial = distinct (api, op, definition, stored mask) combinations") % ("43" if c.quick else "256 (every mask)")
     for s in scen[:1]:
         c.sample({"dir": s["dir"], "steps": s["steps"][:4]})
+    # the typed accessors (GetSetupMode / GetSecureBoot / GetPK, object and legacy API) inside the composed workflow: platform-mode stories of
+    # spec/SecureBootFlow.tla (setup mode = no platform key; enrolment, enforcement switch, clearing), the harness playing the firmware
+    import flow_common
+    c.cov["evaluations"] += flow_common.run_flow(c, ("modes",), 25 if c.quick else 300)
     # canary: a second Write event must be rejected
     can = [dict(e) for e in events[:400]]
     for k, e in enumerate(can):
